@@ -4,6 +4,7 @@ import (
 	"bytes"
 	"encoding/json"
 	"fmt"
+	"math/big"
 	"os"
 	"path/filepath"
 	"regexp"
@@ -472,6 +473,10 @@ func c20Enumerate(tier string, yield func(any)) {
 	for v := 0; v < len(c20HashVariants()); v++ {
 		yield(&c20Case{Kind: "hashline", A: v})
 	}
+	// key files of other tools: EC scalars written shorter or longer (zero-padded) than the curve size
+	for i := range refx509.Curves {
+		yield(&c20Case{Kind: "keyshapes", A: i})
+	}
 	// the read of one file of a settled directory breaks off with an I/O error after N bytes
 	for doc := 0; doc < 2; doc++ {
 		for from := 0; from < 12000; from += 400 {
@@ -658,7 +663,35 @@ func c20Exec(x *engine.Ctx, cc any) {
 		c20HashLine(x, c)
 	case "readfault":
 		c20ReadFault(x, c)
+	case "keyshapes":
+		c20KeyShapes(x, c)
 	}
+}
+
+// c20KeyShapes: a key-only artifact whose EC scalar octet string has every length from 1 to curve size + 8
+// (shorter: leading zeros stripped; longer: zero-padded), with and without the embedded public key.
+func c20KeyShapes(x *engine.Ctx, c *c20Case) {
+	ci := &refx509.Curves[c.A]
+	l := (ci.Curve.Params().N.BitLen() + 7) / 8
+	var n int64
+	for sl := 1; sl <= l+8; sl++ {
+		d := big.NewInt(0x1234)
+		if sl < 2 {
+			d = big.NewInt(0x12)
+		}
+		for _, pub := range []bool{false, true} {
+			der := refx509.BuildECPKCS8(ci, d, refx509.ECEncoding{OuterOID: true, Public: pub, ScalarLen: sl})
+			files := map[string][]byte{
+				"root.yaml":  []byte(fmt.Sprintf("version: 1\nsubject: CN=Key Shapes\nkeyAlgorithm: %s\n", ci.Name)),
+				"child.yaml": []byte("version: 1\nsubject: CN=Child\nissuer: root\nkeyAlgorithm: P-224\n"),
+				"root.pem":   refx509.EncodePem("PRIVATE KEY", der),
+			}
+			c20RunWorld(x, files, []int{9, 16}, fmt.Sprintf("key-only root.pem, curve %s, scalar written in %d octets (curve size %d), embedded public key %v", ci.Name, sl, l, pub))
+			n++
+		}
+	}
+	x.Eval(n - 1)
+	x.NontrivialN(n)
 }
 
 // c20ReadFault: the directory of a corpus document, generated once; then every file in turn cannot be
@@ -1024,7 +1057,7 @@ func init() {
 	register(&engine.Check{
 		ID:          "C20",
 		Level:       "exploration",
-		Rule:        "deviation-bounded enumeration from a valid corpus (the two *-example.yaml documents, examples/, the certificate/extension/profile schema test corpora read from /repo, and artifacts gopki produces): (1) every scalar and container slot of every corpus document replaced by each of 41 hostile values (empty, blank, 0, -1, 2^31, 2^63, 10^30, 1e400, 1.5, OIDs with over-long arcs / wrong first arcs / single arc, impossible dates, huge durations, malformed base64, wrong types, 100 kB string, NUL, emoji, null, [], {}, nested containers) and by removal of the slot, the document placed as root with a child (or as profile of two entities) and run default; default; -a on a fresh directory, and edited into the directory already generated from the unmodified document and run default; -e -o -c (existing certificates, keys and hash lines meet the hostile text); seven added documents give the validity shapes from+duration, from+until, from-only, until-only (certificate and profile) that the repository's documents lack; thorough adds two deviations for all pairs among OID-, date- and raw-valued slots of the example documents; (1b) a settled directory in which the read of each file in turn breaks off with an I/O error after every 5th offset; (2) byte level: every prefix and every offset x 8 bytes of the configuration texts through ParseConfig (quick: documents <=3 kB), every cut and offset x 7 bytes of generated PEM files, every offset x 6 byte values of the DER inside each PEM block re-armoured, through ReadPem and whole runs; 12 placements of the #HASH line x 32 strategies; (3) root and sub artifact each in 10 states (no file, empty, hash only, cert only, key only, CSR only, cert+key, cert+CSR, key+CSR, garbage) x 32 strategies followed by a default run, and the three-tier extension. Oracle: no panic / fatal error; an over-long OID arc in an OID-valued slot must make ParseConfig return an error. non-trivial = distinct mutated inputs executed",
+		Rule:        "deviation-bounded enumeration from a valid corpus (the two *-example.yaml documents, examples/, the certificate/extension/profile schema test corpora read from /repo, and artifacts gopki produces): (1) every scalar and container slot of every corpus document replaced by each of 41 hostile values (empty, blank, 0, -1, 2^31, 2^63, 10^30, 1e400, 1.5, OIDs with over-long arcs / wrong first arcs / single arc, impossible dates, huge durations, malformed base64, wrong types, 100 kB string, NUL, emoji, null, [], {}, nested containers) and by removal of the slot, the document placed as root with a child (or as profile of two entities) and run default; default; -a on a fresh directory, and edited into the directory already generated from the unmodified document and run default; -e -o -c (existing certificates, keys and hash lines meet the hostile text); seven added documents give the validity shapes from+duration, from+until, from-only, until-only (certificate and profile) that the repository's documents lack; thorough adds two deviations for all pairs among OID-, date- and raw-valued slots of the example documents; (1c) key-only artifacts whose EC scalar is written in 1 .. curve size + 8 octets on all ten curves; (1b) a settled directory in which the read of each file in turn breaks off with an I/O error after every 5th offset; (2) byte level: every prefix and every offset x 8 bytes of the configuration texts through ParseConfig (quick: documents <=3 kB), every cut and offset x 7 bytes of generated PEM files, every offset x 6 byte values of the DER inside each PEM block re-armoured, through ReadPem and whole runs; 12 placements of the #HASH line x 32 strategies; (3) root and sub artifact each in 10 states (no file, empty, hash only, cert only, key only, CSR only, cert+key, cert+CSR, key+CSR, garbage) x 32 strategies followed by a default run, and the three-tier extension. Oracle: no panic / fatal error; an over-long OID arc in an OID-valued slot must make ParseConfig return an error. non-trivial = distinct mutated inputs executed",
 		Bound:       map[string]string{"deviations from the corpus": "1 (thorough: 2 for OID/date/raw slots)"},
 		Assumptions: []string{"'all byte strings' is unbounded; coverage-guided mutation is sampling and outside this technique: decided is exactly the deviation-bounded space", "fatal (unrecoverable) errors are attributed to the announced case"},
 		Budget:      budgets(quickBudget, thoroughBudget),
